@@ -137,7 +137,8 @@ def incoming(seed, tier):
             bsend("PUBLISH", id=3, msg={"topic": "a", "q": 2, "m": "B#3"}), bsend("PUBREL", id=3)]
     for early in (False, True):
         for f in faults(12 if tier == "quick" else 16):
-            g.add([do("connect", fault=f)] + base + [do("newclient"), do("connect"),
+            # (a fault beyond the last operation of this connection never fires: the script cuts the connection itself before it goes on)
+            g.add([do("connect", fault=f)] + base + [do("b.cut"), do("newclient"), do("connect"),
                    bsend("PUBLISH", id=2, dup=True, msg={"topic": "a", "q": 2, "m": "B#2"}), bsend("PUBREL", id=2),
                    bsend("PUBLISH", id=3, dup=True, msg={"topic": "a", "q": 2, "m": "B#3"}), bsend("PUBREL", id=3), bsend("PUBREL", id=3), bsend("PUBREL", id=9)], early=early)
     # callback refusing a message: no acknowledgement, connection closed, redelivery after resume
